@@ -171,6 +171,10 @@ def wiring(prog, chk):
                     if cond == ["outside"] and ao["op"] in ("Add", "AddAssign"):
                         got_sign[side] = (fc[0], "-" if then_neg and not else_neg else "+" if else_neg and not then_neg else "?")
     for side, ref in CLASS_REF.items():
+        if got_cls.get(side) is None:
+            # not written as a literal (outside, vertical) table: the classes are decided by the evaluated site text-classes (A17)
+            chk.ok("A15.text-class-wiring", side, gp.where(), f"anchor {side[3:]}: no literal class table in the source; decided by the A17 site text-classes")
+            continue
         chk.ob(got_cls.get(side) == ref, "A15.text-class-wiring", side, gp.where(), f"anchor {side[3:]}: (outside, vertical) -> alignment class table matches the reference", f"anchor {side[3:]}: class table {got_cls.get(side)} differs from the reference {ref}")
         # the inward/outward sign of text-offset is decided by the A17 `text-anchor` site (independent of local names)
     # every alignment class has a style rule
@@ -244,5 +248,11 @@ def text_not_altered(prog, chk):
             n += 1
             ent = TEXT_ALTERING_OK.get(k)
             ok = ent is not None and seen[k] <= ent[0]
+            from props import strops as _so
+
+            if not ok and k[1] not in _so.ALTERING_OPS:
+                # slicing / splitting: a rewrite that keeps every character does this as well - no verdict from the inventory
+                chk.undecided("A14.text-verbatim", f"{k[0].replace('svgdx::', '')}:{k[1]}", b.where(bb, t.get("line")), f"{b.short} applies str::{k[1]}() (a slicing / splitting operation) at a place that is not in the reviewed list; whether characters are lost depends on what is done with the pieces")
+                continue
             chk.ob(ok, "A14.text-verbatim", f"{k[0].replace('svgdx::', '')}:{k[1]}#{seen[k]}", b.where(bb, t.get("line")), f"reviewed: {ent[1] if ent else ''}", f"{b.short} applies str::{k[1]}() in the text pipeline; this is not one of the reviewed places: characters of the author's text (blanks, backslashes, ...) can be dropped or changed on their way to the <text>/<tspan> content", by="table")
     chk.floor("A14.text-verbatim", n, 2, "character-altering string operation in src/text.rs")
